@@ -55,16 +55,7 @@ TRANSPARENT_FUNCS = {"numpy.copy", "copy.deepcopy", "copy.copy", "numpy.asarray"
 # private helpers that rules name as atoms (anchors of obligations): calls to them stay calls.  Any *other* private
 # repository function (a helper a maintainer extracted) and every nested def is substituted at its call site, so that
 # "extract helper" / "inline helper" refactorings leave the normal form unchanged.
-KNOWN_ATOMS = {
-    "_sum_by_group", "_sum_by_group_np", "_sum_by_group_numba", "_sum_by_group_sorted", "_sum_values_by_index",
-    "_connectivity", "_iteration_check", "_mode_check", "_restart_connectivity_check", "_add_fluid_to_net",
-    "_junction_reference_mask", "_deprecation_check_k", "_deprecation_check_u", "_branches_not_zero_flow", "_retrieve_data",
-    "_make_lookups", "_evaluate_multinet", "_relevant_nets", "_call_output_writer", "_add_missing_columns", "_add_sector",
-    "_rename_attributes", "_rename_columns", "_rename_controller_columns", "_rename_heat_exchanger_columns",
-    "_rename_pipe_columns", "_rename_valve_columns", "_add_multiple_branch_geodata", "_auto_ext_grid_type",
-    "_auto_ext_grid_types", "_check_branch", "_check_branches", "_check_junction_element",
-    "_check_multiple_junction_elements", "_check_std_type", "_preserve_dtypes", "_set_entries", "_set_multiple_entries",
-    "_from_list", "_from_path"}
+from .atoms import KNOWN_ATOMS  # noqa: E402
 AUTO_INLINE_DEPTH = 4
 
 # positional parameter names (and constant defaults) of the external functions the package calls with keywords
@@ -1033,7 +1024,7 @@ def _const_cols(i, j):
     return False
 
 
-def read(b, idx):
+def read(b, idx, _depth=0):
     """x[idx] with read-through of functional updates: the value stored at the same index, or the array before a store
     to a provably different constant column"""
     if len(idx) == 1 and is_const(idx[0]) and isinstance(idx[0][1], int) and not isinstance(idx[0][1], bool) and idx[0][1] >= 0 \
@@ -1047,6 +1038,11 @@ def read(b, idx):
             b = b[1]
             continue
         break
+    if isinstance(b, tuple) and b and b[0] == "ite" and len(b) == 4 and _depth < 3 \
+            and any(isinstance(x, tuple) and x and x[0] in ("upd", "ite") for x in b[2:4]):
+        # a container that was updated differently on the two arms of an `if`: read each arm
+        ra, rb = read(b[2], idx, _depth + 1), read(b[3], idx, _depth + 1)
+        return ra if key(ra) == key(rb) else ("ite", b[1], ra, rb)
     return ("idx", b, idx)
 
 
